@@ -9,8 +9,14 @@ export GOFLAGS=-mod=mod GOPROXY=off GOSUMDB=off GOTOOLCHAIN=local
 wt=/tmp/mut/confirm-$sid
 log=/tmp/mut/confirm-$sid.log
 mkdir -p /tmp/mut; : > "$log"
-base=HEAD
+base=${3:-HEAD}
 git -C /repo worktree add -q --detach "$wt" $base >>"$log" 2>&1 || { echo "$sid: worktree failed"; exit 2; }
+if ! git -C "$wt" apply --check "$src/patch.diff" >/dev/null 2>&1 && [ "$base" = HEAD ]; then
+  # the defect was written against the tree as it was before later fix: commits; confirm it there
+  git -C /repo worktree remove --force "$wt" >/dev/null 2>&1
+  base=b37c8ca
+  git -C /repo worktree add -q --detach "$wt" $base >>"$log" 2>&1 || { echo "$sid: worktree failed"; exit 2; }
+fi
 cleanup() { git -C /repo worktree remove --force "$wt" >/dev/null 2>&1; rm -rf "/tmp/mut/demo-$sid"; }
 trap cleanup EXIT
 rundemo() { # prints exit code of the demo against $wt
@@ -35,11 +41,11 @@ rm -rf "$wt/_test/tmp"
 echo "$sid: demo_unpatched_rc=$rc0 demo_patched_rc=$rc1 suite_rc=$suite"
 if [ "$rc0" = 0 ] && [ "$rc1" != 0 ] && [ "$suite" = 0 ]; then
   dst=/verif/seeded/$sid; mkdir -p "$dst"; cp "$src/patch.diff" "$dst/patch.diff"; rm -rf "$dst/demo"; cp -r "$src/demo" "$dst/demo"
-  python3 - "$src/meta.json" "$dst/meta.json" "$rc0" "$rc1" <<'PY'
+  python3 - "$src/meta.json" "$dst/meta.json" "$rc0" "$rc1" "$base" <<'PY'
 import json,sys
 try: m=json.load(open(sys.argv[1]))
 except Exception: m={}
-m['confirmed']={'by':'tools/confirm_mutant.sh','demo_exit_unpatched':int(sys.argv[3]),'demo_exit_patched':int(sys.argv[4]),'suite':'tools/suite.sh on the patched worktree: every BASELINE stable_pass test passes','tree':'scratch worktree of /repo HEAD'}
+m['confirmed']={'by':'tools/confirm_mutant.sh','demo_exit_unpatched':int(sys.argv[3]),'demo_exit_patched':int(sys.argv[4]),'suite':'tools/suite.sh on the patched worktree: every BASELINE stable_pass test passes','tree':'scratch worktree of /repo at '+sys.argv[5]}
 json.dump(m,open(sys.argv[2],'w'),indent=1)
 PY
   echo "$sid: CONFIRMED -> $dst"
